@@ -21,7 +21,7 @@ structure FnDef where
   raiseRem : Nat
   cls      : Cls
   msg      : Nat
-  const    : Int        -- otherwise return (sum of the collected values) + const
+  const    : Int        -- otherwise return (sum of the collected values) + const + 10 * arg
   explicit : Bool
 deriving Repr
 
@@ -39,7 +39,7 @@ def sumSlots : List Outcome → Int
   | .exc _ _ :: r => -500 + sumSlots r
 
 def denoteStmts (d : FnDef) (a : Val) : List Stmt → Int → Body
-  | [], acc => if raises d a then .ret (.exc d.cls d.msg) else .ret (.val (some (acc + d.const)))
+  | [], acc => if raises d a then .ret (.exc d.cls d.msg) else .ret (.val (some (acc + d.const + 10 * a)))
   | .resource h :: rest, acc => .resource h (denoteStmts d a rest acc)
   | .call g off ctx fl caught guard :: rest, acc =>
     if !guardOk guard a then denoteStmts d a rest acc else
